@@ -276,7 +276,12 @@ pub fn duration_compare(r_day: i64, a: &Dur, b: &Dur) -> Result<std::cmp::Orderi
         } else {
             d.f[3]
         };
-        Ok(days * NS_PER_DAY + d.time_ns())
+        // Add24HourDaysToTimeDuration throws beyond maxTimeDuration
+        let total = days * NS_PER_DAY + d.time_ns();
+        if total.abs() >= crate::refm::dur::MAX_TIME_NS {
+            return Err(RErr::Range);
+        }
+        Ok(total)
     };
     Ok(lead(a)?.cmp(&lead(b)?))
 }
